@@ -1,4 +1,4 @@
 From Coq Require Import Extraction ExtrOcamlBasic.
 From PV Require Import Lib.ExtractBase Model.Provider Model.Preload.
 Extraction Language OCaml.
-Extraction "extracted/C14_model.ml" xb_types deliver chosen_entries bound cyc_prefix ids spec14_b.
+Extraction "extracted/C14_model.ml" xb_types deliver chosen_entries bound cyc_prefix ids spec14_b constructor_refuses.
